@@ -5,12 +5,13 @@
 # and stores patch + demo + results under seeded/<name>. (No `git stash`: the stash is shared by all
 # worktrees of a repository.)
 set -u
+VROOT=${VROOT:-/verif}
 name=$1; wt=$2; shift 2
-out=/verif/seeded/$name
+out=${VROOT}/seeded/$name
 mkdir -p $out
 cp $wt/_seed/patch.diff $out/patch.diff
 cp $wt/_seed/seed_demo.rs $out/seed_demo.rs 2>/dev/null || cp $wt/examples/seed_demo.rs $out/seed_demo.rs
-cp $wt/_seed/NOTES.md $out/NOTES.md 2>/dev/null
+sed -i "s|${VROOT}/||g" $out/check_results.txt 2>/dev/null; cp $wt/_seed/NOTES.md $out/NOTES.md 2>/dev/null
 chk=/tmp/seedcheck_$$
 git -C /repo worktree add -q $chk HEAD
 cd $chk
@@ -22,12 +23,12 @@ if git apply $out/patch.diff; then
 else
   suite="PATCH DOES NOT APPLY"; with_rc=-1
 fi
-cd /verif
+cd ${VROOT}
 git -C /repo worktree remove --force $chk
 echo "suite: $suite"
 echo "demo with change rc=$with_rc (want != 0), without rc=$without_rc (want 0)"
 cd /repo && git apply $out/patch.diff || { echo "patch does not apply to /repo"; exit 2; }
-cd /verif
+cd ${VROOT}
 results=""
 for p in "$@"; do
   line=$(./check $p 2>&1 | grep -E "^(VIOLATION|OK)" | head -2 | tr '\n' ' ')
